@@ -727,8 +727,8 @@ class TypeBlocks(ContainerOperand):
 
         else: # both defined
             assert columns_ic is not None and index_ic is not None
-            if not columns_ic.has_common and not index_ic.has_common:
-                # return an empty frame
+            if not columns_ic.has_common:
+                # no columns to transfer: return an empty frame
                 shape = index_ic.size, columns_ic.size
                 values = full_for_fill(None, shape, fill_value)
                 values.flags.writeable = False
@@ -758,10 +758,11 @@ class TypeBlocks(ContainerOperand):
                                 values = full_for_fill(b.dtype,
                                         index_ic.size,
                                         fill_value)
-                                if b.ndim == 1:
-                                    values[index_ic.iloc_dst] = b[index_ic.iloc_src]
-                                else:
-                                    values[index_ic.iloc_dst] = b[index_ic.iloc_src, block_col]
+                                if index_ic.has_common:
+                                    if b.ndim == 1:
+                                        values[index_ic.iloc_dst] = b[index_ic.iloc_src]
+                                    else:
+                                        values[index_ic.iloc_dst] = b[index_ic.iloc_src, block_col]
                                 values.flags.writeable = False
                                 yield values
                         else:
